@@ -6,6 +6,7 @@ import (
 	"fmt"
 	"image/color"
 	"math"
+	"sort"
 	"testing"
 
 	"github.com/reactivego/ivg"
@@ -22,8 +23,9 @@ func TestMain(m *testing.M) { harness.Main(m, "C10") }
 
 // Call is one step of a history over the Encoder API.
 type Call struct {
-	What string  `json:"what"` // "reset", "read", "bytes", "op"
+	What string  `json:"what"` // "reset", "read", "bytes", "op", "hires" (the exported resolution field is assigned Hi)
 	Op   *ops.Op `json:"op,omitempty"`
+	Hi   bool    `json:"hi,omitempty"`
 }
 
 type Case struct {
@@ -65,6 +67,26 @@ type automaton struct {
 	// what the read-back accessors must report while no violation occurred
 	cSel, nSel uint8
 	lod0, lod1 float32
+	// the exported resolution field (Reset clears it) and the copy a path takes when it starts
+	hi, latched bool
+}
+
+// quant is the low-resolution rule for the off-grid values the generator uses (never on a tie).
+func quant(v float32) float32 { return float32(math.Floor(float64(v)*64+0.5)) / 64 }
+
+func (a *automaton) quantised(o ops.Op) ops.Op {
+	if a.latched || len(o.F) == 0 {
+		return o
+	}
+	d := o
+	d.F = append([]ops.F32{}, o.F...)
+	for i := range d.F {
+		if (o.K == ops.AbsArcTo || o.K == ops.RelArcTo) && i == 2 {
+			continue // the rotation is an angle, not a coordinate
+		}
+		d.F[i] = ops.F32(quant(float32(d.F[i])))
+	}
+	return d
 }
 
 var inf32 = float32(math.Inf(1))
@@ -80,6 +102,10 @@ func (a *automaton) step(i int, c Call) {
 		a.delivered = a.delivered[:0]
 		a.vb, a.pal = c.Op.ViewBox(), c.Op.Palette()
 		a.cSel, a.nSel, a.lod0, a.lod1 = 0, 0, 0, inf32
+		a.hi = false
+		return
+	case "hires":
+		a.hi = c.Hi
 		return
 	case "read", "bytes":
 		if a.st == stInitial && (c.What == "read" || a.err == vNone) {
@@ -135,10 +161,12 @@ func (a *automaton) step(i int, c Call) {
 		case ops.SetLOD:
 			a.lod0, a.lod1 = o.Arg(0), o.Arg(1)
 		}
-		a.delivered = append(a.delivered, d)
 		if o.K == ops.StartPath {
 			a.st = stDrawing
+			a.latched = a.hi
+			d = a.quantised(d)
 		}
+		a.delivered = append(a.delivered, d)
 		return
 	}
 	// drawing kinds
@@ -146,7 +174,7 @@ func (a *automaton) step(i int, c Call) {
 		fail(vDrawingOutsidePath, vNone)
 		return
 	}
-	a.delivered = append(a.delivered, o)
+	a.delivered = append(a.delivered, a.quantised(o))
 	if o.K == ops.ClosePathEndPath {
 		a.st = stStyling
 	}
@@ -169,6 +197,8 @@ func apply(e *encode.Encoder, c Call) (b []byte, err error, wasBytes bool) {
 		lastRead.cSel = e.CSel()
 		lastRead.nSel = e.NSel()
 		lastRead.lod0, lastRead.lod1 = e.LOD()
+	case "hires":
+		e.HighResolutionCoordinates = c.Hi
 	case "bytes":
 		b, err = e.Bytes()
 		return append([]byte{}, b...), err, true
@@ -398,10 +428,100 @@ func indexOf(l byte) int {
 	return 0
 }
 
+// ---------------------------------------------------------------- run lengths
+
+// runHistory: Reset, StartPath, n calls of one verb with arguments that differ from call to
+// call, one call of another verb, end of path.
+func runHistory(k ops.Kind, n int) Case {
+	var c Case
+	op := func(o ops.Op) { c.Calls = append(c.Calls, Call{What: "op", Op: &o}) }
+	r := ops.OpReset(ivg.DefaultViewBox, ivg.DefaultPalette)
+	c.Calls = append(c.Calls, Call{What: "reset", Op: &r})
+	op(ops.OpStartPath(0, 1, 2))
+	for i := 0; i < n; i++ {
+		a := func(j int) float32 { return float32((i*7+j*13)%251-125) / 4 }
+		if k == ops.AbsArcTo || k == ops.RelArcTo {
+			op(ops.OpArc(k, a(0), a(1), float32(i%8)/8, i%2 == 0, i%3 == 0, a(2), a(3)))
+			continue
+		}
+		args := make([]float32, k.NArgs())
+		for j := range args {
+			args[j] = a(j)
+		}
+		op(ops.OpDraw(k, args...))
+	}
+	other := ops.AbsLineTo
+	if k == ops.AbsLineTo {
+		other = ops.RelVLineTo
+	}
+	args := []float32{3, 4}
+	op(ops.OpDraw(other, args[:other.NArgs()]...))
+	op(ops.OpDraw(ops.ClosePathEndPath))
+	c.Calls = append(c.Calls, Call{What: "bytes"})
+	return c
+}
+
+// Runs of every length: whatever the Encoder buffers while a run is pending (operands, counts),
+// no length is special. Quick tier: the lengths at which the number of buffered operands crosses
+// a power of two (where buffers grow or are flushed), each with its neighbours, and every length
+// up to 70; thorough tier: every length up to 4200.
+func TestRunLengths(t *testing.T) {
+	st := harness.Counter("run-lengths", "one run of n calls of one verb (H, L, Q, C, A: 1, 2, 4, 6, 5+flags operands per call, operands differing from call to call) followed by another verb: accepted, and decodes to exactly the history; quick: n <= 70 and n around every operand count 2^k <= 2^14; thorough: every n <= 4200")
+	verbs := []ops.Kind{ops.RelHLineTo, ops.AbsLineTo, ops.RelQuadTo, ops.AbsCubeTo, ops.RelArcTo}
+	nargs := []int{1, 2, 4, 6, 6}
+	var lens [][2]int // verb index, n
+	for vi := range verbs {
+		if harness.Thorough() {
+			for n := 1; n <= 4200; n++ {
+				if (n+vi)%harness.Shards() == harness.Shard() {
+					lens = append(lens, [2]int{vi, n})
+				}
+			}
+			continue
+		}
+		if harness.Shard() != 0 {
+			continue
+		}
+		seen := map[int]bool{}
+		for n := 1; n <= 70; n++ {
+			seen[n] = true
+		}
+		for k := 6; k <= 14; k++ {
+			for _, na := range []int{nargs[vi], nargs[vi] + 1} { // arcs: with or without the flags counted
+				for d := -1; d <= 2; d++ {
+					if n := (1<<uint(k))/na + d; n > 0 && n <= 4200 {
+						seen[n] = true
+					}
+				}
+			}
+		}
+		for n := range seen {
+			lens = append(lens, [2]int{vi, n})
+		}
+	}
+	sort.Slice(lens, func(i, j int) bool {
+		if lens[i][0] != lens[j][0] {
+			return lens[i][0] < lens[j][0]
+		}
+		return lens[i][1] < lens[j][1]
+	})
+	for _, l := range lens {
+		c := runHistory(verbs[l[0]], l[1])
+		st.AddEnumerated(1, 1)
+		if err := subHist.Eval(c); err != nil {
+			t.Fatalf("run of %d x %v: %v", l[1], verbs[l[0]], err)
+		}
+	}
+}
+
 // ---------------------------------------------------------------- long random histories
 
 func exact(t *rapid.T, label string) float32 {
-	return float32(rapid.IntRange(-64*4, 63*4).Draw(t, label)) / 4
+	v := float32(rapid.IntRange(-64*4, 63*4).Draw(t, label)) / 4
+	if rapid.IntRange(0, 5).Draw(t, label+".offgrid") == 0 {
+		v += 1.0 / 256 // a quarter of a low-resolution step: comes back as v in a low-resolution path
+	}
+	return v
 }
 
 func genCall(t *rapid.T, drawing bool) Call {
@@ -437,6 +557,9 @@ func genCall(t *rapid.T, drawing bool) Call {
 		o := ops.OpReset(gen.VB(vb), [64]color.RGBA(pal))
 		return Call{What: "reset", Op: &o}
 	case r < 8:
+		if hiresOK && rapid.IntRange(0, 2).Draw(t, "hires") == 0 {
+			return Call{What: "hires", Hi: rapid.Bool().Draw(t, "hi")}
+		}
 		return Call{What: "read"}
 	case r < 12:
 		return Call{What: "bytes"}
@@ -496,6 +619,9 @@ func genCall(t *rapid.T, drawing bool) Call {
 // prevVerb: the drawing verb genCall drew last in the current case.
 var prevVerb ops.Kind
 
+// hiresOK: genCall may assign the resolution field.
+var hiresOK bool
+
 // runLeft: how many more calls of prevVerb genCall makes before choosing again.
 var runLeft int
 
@@ -504,10 +630,11 @@ func TestRandomHistories(t *testing.T) {
 		n := rapid.IntRange(1, 300).Draw(t, "len")
 		var c Case
 		a := newAutomaton()
-		prevVerb, runLeft = 0, 0
+		prevVerb, runLeft, hiresOK = 0, 0, false
 		for i := 0; i < n; i++ {
 			call := genCall(t, a.st == stDrawing && a.err == vNone)
 			a.step(i, call)
+			hiresOK = a.lastReset >= 0 // the field is assigned only on an Encoder that was Reset at least once
 			c.Calls = append(c.Calls, call)
 		}
 		labels := []string{"final=" + violationNames[a.err]}
